@@ -6,6 +6,7 @@
 //     post: none|reset|clone|move|swap|assignnull
 #include "hcommon.hpp"
 #include "joint_allocator.hpp"
+#include "std_allocator.hpp"
 #include <memory>
 using namespace foonathan::memory;
 using namespace verif;
@@ -175,6 +176,32 @@ static void run_case(std::size_t cap, long throw_at, const std::string& post, st
     try { void* q = leaf.allocate_node(8, 8); leaf.deallocate_node(q, 8, 8); U.take(); log += " usable=1"; } catch (...) { log += " usable=0"; }
 }
 
+// a joint type whose member is a standard container on joint_allocator: whatever the container does -- growth, copy and move
+// assignment from the container of another joint object, swap is not allowed -- its elements stay in the object's own block
+#include <vector>
+struct JV : joint_type<JV>
+{
+    std::vector<long, std_allocator<long, joint_allocator>> v;
+    JV(joint j, std::size_t n) : joint_type(j), v(joint_allocator(*this)) { v.reserve(n); for (std::size_t i = 0; i < n; ++i) v.push_back(long(i)); }
+};
+static void run_vec(std::size_t cap, std::size_t na, std::size_t nb, const std::string& how, std::string& log)
+{
+    up_alloc leaf; auto& U = up(); char buf[200];
+    auto a = allocate_joint<JV>(leaf, joint_size(cap), na); auto b = allocate_joint<JV>(leaf, joint_size(cap), nb);
+    const char* ex = nullptr;
+    try { if (how == "move") a->v = std::move(b->v); else if (how == "copy") a->v = b->v; else a->v.assign(b->v.begin(), b->v.end()); }
+    catch (...) { ex = classify_current(); }
+    auto inside = [&](JV* o, const std::vector<long, std_allocator<long, joint_allocator>>& v) {
+        auto lo = reinterpret_cast<const char*>(o) + sizeof(JV), hi = lo + cap; auto p = reinterpret_cast<const char*>(v.data());
+        return v.capacity() == 0 || (p >= lo && p + v.capacity() * sizeof(long) <= hi); };
+    bool same = !ex && a->v.size() == nb; if (same) for (std::size_t i = 0; i < nb; ++i) if (a->v[i] != long(i)) same = false;
+    std::snprintf(buf, sizeof buf, " vec %s a_inside=%d b_inside=%d content=%d", ex ? ex : "ok", int(inside(a.get(), a->v)), int(inside(b.get(), b->v)), int(same || ex != nullptr));
+    log += buf; b.reset();
+    // a is still usable after b is gone
+    long sum = 0; for (auto x : a->v) sum += x; std::snprintf(buf, sizeof buf, " after_b_gone=%ld", sum); log += buf;
+    a.reset(); log += " |" + U.take() + " |";
+}
+
 int main()
 {
     install_quiet_handlers();
@@ -188,6 +215,10 @@ int main()
     {
         std::istringstream is(line); std::string k, form, post; std::size_t cap, nc, na, nb; long throw_at;
         is >> k >> form >> cap >> nc >> na >> nb >> throw_at >> post;
+        if (k == "v")
+        {   // v <move|copy|assign> <cap> - <na> <nb>
+            std::string log; run_vec(cap, na, nb, form, log); std::printf("%s =%s\n", line.c_str(), log.c_str()); std::fflush(stdout); continue;
+        }
         if (k != "j" && k != "r") continue;
         cfg_t cfg{nc, na, nb, {}, nullptr}; std::size_t s, a;
         if (k == "r") { cfg.retry_n = long(na); cfg.retry_k = throw_at; cfg.na = 0; throw_at = -1; }   // r <form> <cap> <nc> <n> <nb> <k> none
